@@ -240,7 +240,7 @@ class DocEngine:
                 cands = near
             op["name"] = rng.choice(cands, "dpname")
         elif name == "add_file":
-            op["via"] = rng.choice(["path", "pathobj", "bytesio", "chunked", "image"], "via")
+            op["via"] = rng.choice(["path", "pathobj", "bytesio", "chunked", "image", "path_odd"], "via")
             # repeated content allowed: small id space
             op["content"] = rng.randint(0, 3, "content")
             prev = getattr(self, "_added", [])
@@ -431,7 +431,8 @@ class DocEngine:
         prop = self.prop
         s = {}
         if prop == "C04":
-            s["packaging"] = "zip"
+            # the property judges the zips; a folder save in between is one more thing "done to the document"
+            s["packaging"] = rng.weighted([("zip", 7), ("folder", 2)], "packaging")
         else:
             s["packaging"] = rng.weighted([("zip", 6), ("folder", 3), ("xml", 1)], "packaging")
         has_path = self.sut.src["path"] is not None
@@ -445,7 +446,7 @@ class DocEngine:
         if s["packaging"] == "folder":
             tk.append(("dotfolder", 1))
         if any(a.get("path") and a["packaging"] == s["packaging"] and not a.get("dead") for a in self.artifacts):
-            tk.append(("existing", 2))
+            tk.append(("existing", 2 if not (prop == "C04" and s["packaging"] == "folder") else 8))  # (C04: a folder saved again at the same place, then reopened and zipped)
         if prop == "C10" and s["packaging"] == "folder":
             # a document opened from a folder is by design a live view of that folder
             # (parts are read again when their file changes): overwriting the folder one
@@ -1700,8 +1701,15 @@ class DocEngine:
             with open(src, "rb") as f:
                 data = f.read()
             arg = src
+        elif via == "path_odd":
+            # a file whose suffix has characters that are not URL-safe (kept verbatim in the part name)
+            p = os.path.join(self.scratch, f"blob{cid}" + [".c++", ".é x", ".Fig 3", ".a&b"][cid % 4])
+            with open(p, "wb") as f:
+                f.write(data)
+            arg = p
         elif via in ("path", "pathobj"):
-            p = os.path.join(self.scratch, f"blob{cid}.bin")
+            # two path slots for four contents: the same path is handed over again after its file was rewritten
+            p = os.path.join(self.scratch, f"blob{cid % 2}.bin")
             with open(p, "wb") as f:
                 f.write(data)
             arg = p if via == "path" else __import__("pathlib").Path(p)
